@@ -51,7 +51,7 @@ PremiseOk == grp.rel # "duprows" \/ (inp # <<>> /\ HasDup(inp) /\ Len(inp) < 100
 TMember ==
     /\ Is("Obj") /\ Ev.tag = "out"
     /\ l' = l + 1
-    /\ LET r == IF Ev.null = 0 /\ Ev.status = 3 /\ Ev.rows = 1 THEN Result(Ev) ELSE [k |-> "fail"]
+    /\ LET r == IF Ev.null = 0 /\ Ev.final = 1 /\ Ev.rows = 1 THEN Result(Ev) ELSE [k |-> "fail"]
        IN /\ ref' = IF ref.k = "none" THEN r ELSE ref
           /\ IF ~PremiseOk THEN PrintT(<<"KVSKIP", l, grp.gid, "premise">>) /\ Report({}) ELSE
              Report(Check(r) \cup (IF r.k = "ok" /\ inp # <<>> /\ ~LettersKept(inp, r.seqs) THEN {grp.prop \o ":output-letters-differ-from-input"} ELSE {}))
